@@ -112,6 +112,7 @@ def run(ctx):
     ctx.coverage["traces_validated_against_impl"] = len(outs) + len(recs) + len(wrecs)
     ctx.coverage["distribution"] = stats
     ctx.assumptions += [
+        "kills are enumerated before the mutating calls (and inside files): a kill before a non-mutating call (read, stat, getdents) leaves exactly the tree of a kill before the next mutating call, so reads add no kill position",
         "process-kill model of the property: calls already made are durable and ordered (no power loss, no reordering by the file system)",
         "a file written by several write calls is modelled in two steps (truncate, data): every interrupted file is one token [CPartial], distinct from all complete contents",
         "the validator of clause (iii) is [obj_validb]: root entries known to the inventory (E001), sidecar digest (E060), parseable inventory, declaration required by the inventory (E003/E007/E038), a directory for every version (E010), head inventory copy (E064); the real verdict is the agreement of ocflv.py and rocfl validate",
